@@ -188,7 +188,12 @@ impl ReadXml for Maybe<Candidate> {
             return Ok(Self(None));
         };
         let mut name = None;
+        let mut then_seen = false;
         let mut reject_policy = false;
+        // Anything besides `<name>`, one `<then>` holding `<reject/>`, and comments means that the
+        // statement is not (or no longer) a bgpfu-managed one. Such a statement is skipped rather
+        // than failing the whole read, which would block the update of every other policy.
+        let mut other_content = false;
         loop {
             match reader.read_resolved_event()? {
                 (ResolveResult::Bound(XNM), Event::Start(tag))
@@ -197,9 +202,10 @@ impl ReadXml for Maybe<Candidate> {
                     name = Some(read_name(reader, &tag)?);
                 }
                 (ResolveResult::Bound(XNM), Event::Start(tag))
-                    if tag.local_name().as_ref() == b"then" && !reject_policy =>
+                    if tag.local_name().as_ref() == b"then" && !then_seen =>
                 {
                     tracing::debug!(?tag);
+                    then_seen = true;
                     let end = tag.to_end();
                     loop {
                         match reader.read_resolved_event()? {
@@ -210,6 +216,13 @@ impl ReadXml for Maybe<Candidate> {
                             }
                             (_, Event::Comment(_)) => continue,
                             (_, Event::End(tag)) if tag == end => break,
+                            (_, Event::Start(tag)) => {
+                                _ = reader.read_to_end(tag.name())?;
+                                other_content = true;
+                            }
+                            (_, Event::Empty(_) | Event::Text(_) | Event::CData(_)) => {
+                                other_content = true;
+                            }
                             (ns, event) => {
                                 tracing::error!(?event, ?ns, "unexpected xml event");
                                 return Err(ReadError::UnexpectedXmlEvent(event.into_owned()));
@@ -219,13 +232,20 @@ impl ReadXml for Maybe<Candidate> {
                 }
                 (_, Event::Comment(_)) => continue,
                 (_, Event::End(tag)) if tag == end => break,
+                (_, Event::Start(tag)) => {
+                    _ = reader.read_to_end(tag.name())?;
+                    other_content = true;
+                }
+                (_, Event::Empty(_) | Event::Text(_) | Event::CData(_)) => {
+                    other_content = true;
+                }
                 (ns, event) => {
                     tracing::error!(?event, ?ns, "unexpected xml event");
                     return Err(ReadError::UnexpectedXmlEvent(event.into_owned()));
                 }
             }
         }
-        if reject_policy {
+        if reject_policy && !other_content {
             Ok(Self(Some((
                 name.ok_or(ReadError::MissingElement {
                     msg_type: "policy-statement",
